@@ -40,10 +40,28 @@ def ev_write_text(n):
             "origins": ORIGINS, "back": back, "tok": tok}
 
 
-def ev_parse_text(octets):
+def ev_parse_text(octets, origins=None):
+    """from_text of one text under each origin, in this order, in one process"""
     text = text_of(octets)
-    return {"op": "parse", "text": octets, "origins": ORIGINS,
-            "res": [outcome(lambda o=o: dns.name.from_text(text, origin_of(o))) for o in ORIGINS]}
+    origins = ORIGINS if origins is None else origins
+    return {"op": "parse", "text": octets, "origins": origins,
+            "res": [outcome(lambda o=o: dns.name.from_text(text, origin_of(o))) for o in origins]}
+
+
+def tokseq_trace(tid, calls):
+    """ONE Tokenizer over "t1 t2 ... tn"; call i = (text, origin, relativize, relativize_to) reads
+    token i, alternately through get_name() and through get() + as_name()"""
+    tok = dns.tokenizer.Tokenizer(" ".join(bytes(c[0]).decode("ascii") for c in calls))
+    ev = []
+    for i, (octets, origin, relativize, relto) in enumerate(calls):
+        o, rt = origin_of(origin), origin_of(relto)
+        if i % 2:
+            res = outcome(lambda: tok.as_name(tok.get(), o, relativize, rt))
+        else:
+            res = outcome(lambda: tok.get_name(o, relativize, rt))
+        ev.append({"op": "tok", "text": octets, "origin": origin, "relativize": relativize, "relto": relto,
+                   "via": "as_name" if i % 2 else "get_name", "seq": i + 1, "res": res})
+    return {"tid": tid, "ev": ev}
 
 
 def ev_tok(octets, origin, relativize, relto):
@@ -178,6 +196,8 @@ def run_job(job):
             return one(tid, ev_parse_text(*args))
         if kind == "tok":
             return {"tid": tid, "ev": [ev_tok(*a) for a in args]}
+        if kind == "tokseq":
+            return tokseq_trace(tid, args)
         if kind == "decode":
             return decode_trace(tid, *args)
         if kind == "wwire":
